@@ -23,6 +23,7 @@ type Env struct {
 	locals  *Frame
 	err     func(string)
 	underQuant bool
+	now     *State
 }
 
 func (f *Frame) evalClause(c Clause, st, old *State, results []EV, li *loopInfo) string {
@@ -84,8 +85,18 @@ func exprSrc(x *Expr) string {
 
 func (e *Env) withState(st *State) *Env {
 	n := *e
+	if n.now == nil {
+		n.now = e.st // locals keep their current value inside old(): only heap, ghost and globals are "old"
+	}
 	n.st = st
 	return &n
+}
+
+func (e *Env) localState() *State {
+	if e.now != nil {
+		return e.now
+	}
+	return e.st
 }
 
 func (e *Env) bind(name string, v EV) *Env {
@@ -136,7 +147,7 @@ func (e *Env) lookupID(name string) (Val, bool) {
 		return Val{"0", SInt, nil}, true
 	case "$i":
 		if e.li != nil && e.li.idxCell != "" {
-			idx := f.getCell(e.st, e.li.idxCell, SInt)
+			idx := f.getCell(e.localState(), e.li.idxCell, SInt)
 			return Val{sx("+", idx, "1"), SInt, types.Typ[types.Int]}, true
 		}
 		e.fail("$i outside a range loop")
@@ -177,7 +188,11 @@ func (e *Env) lookupID(name string) (Val, bool) {
 				a = as[len(as)-1]
 			}
 			if p, ok := e.locals.vals[a].(*Ptr); ok {
-				v := f.loadPtr(e.st, p)
+				st := e.st
+				if strings.HasPrefix(p.root, "L:") {
+					st = e.localState()
+				}
+				v := f.loadPtr(st, p)
 				return v, true
 			}
 			if v, ok := e.locals.vals[a].(Val); ok { // heap-allocated local holding a struct
@@ -284,7 +299,9 @@ func (e *Env) eval(x *Expr) Val {
 		}
 		ne2 := *ne
 		ne2.underQuant = true
+		vc.quantDepth++
 		body := ne2.evalBool(x.Args[0])
+		vc.quantDepth--
 		return Val{fmt.Sprintf("(%s (%s) %s)", x.Op, strings.Join(decl, " "), body), SBool, nil}
 	case "sel":
 		return e.evalSel(x)
@@ -584,6 +601,40 @@ func (e *Env) evalCall(x *Expr) Val {
 		}
 		e.fail("has() on non-map")
 		return Val{"true", SBool, nil}
+	case "seq_len", "seq_at": // seq_len(msg, "Field") / seq_at(msg, "Field", k): the sequence a membuffers iterator enumerates (A-ITER)
+		m := e.eval(x.Args[0])
+		field := x.Args[1].Name
+		lenF, atF := "|seq_len:"+field+"|", "|seq_at:"+field+"|"
+		vc.declareFun(lenF, []Sort{SInt}, SInt)
+		vc.declareFun(atF, []Sort{SInt, SInt}, SInt)
+		if x.Name == "seq_len" {
+			vc.assume(and(sx("<=", "0", sx(lenF, m.t)), sx("<=", sx(lenF, m.t), "9223372036854775807")))
+			return Val{sx(lenF, m.t), SInt, types.Typ[types.Int]}
+		}
+		k := e.eval(x.Args[2])
+		var et types.Type
+		if m.gt != nil {
+			if obj, _, _ := types.LookupFieldOrMethod(m.gt, true, nil, field+"Iterator"); obj != nil {
+				if fo, ok := obj.(*types.Func); ok {
+					it := fo.Type().(*types.Signature).Results().At(0).Type()
+					if nobj, _, _ := types.LookupFieldOrMethod(it, true, nil, "Next"+field); nobj != nil {
+						et = nobj.(*types.Func).Type().(*types.Signature).Results().At(0).Type()
+					}
+				}
+			}
+		}
+		if et == nil {
+			e.fail("seq_at: cannot find %sIterator on %v", field, m.gt)
+		}
+		return Val{sx(atF, m.t, k.t), SInt, et}
+	case "iter_pos":
+		it := e.eval(x.Args[0])
+		pos := f.getCell(e.st, "ghost:iterpos", "(Array Int Int)")
+		return Val{sx("select", pos, it.t), SInt, types.Typ[types.Int]}
+	case "iter_src":
+		it := e.eval(x.Args[0])
+		vc.declareFun("iter_src", []Sort{SInt}, SInt)
+		return Val{sx("iter_src", it.t), SInt, nil}
 	case "deref": // deref(p): the struct value a pointer refers to
 		a := e.eval(x.Args[0])
 		if et, isPtr := derefType(a.gt); isPtr {
@@ -724,6 +775,38 @@ func (e *Env) pureApply(fn *ssa.Function, args []Val) Val {
 func (e *Env) evalMCall(x *Expr) Val {
 	f := e.f
 	vc := f.vc
+	// package-qualified function: pkg.F(args)
+	if x.Args[0].Op == "id" {
+		if _, isVal := e.lookupID(x.Args[0].Name); !isVal {
+			for _, p := range vc.P.allTypesPkgs() {
+				if p.Name() != x.Args[0].Name {
+					continue
+				}
+				if fo, ok := p.Scope().Lookup(x.Name).(*types.Func); ok {
+					var args []Val
+					for _, a := range x.Args[1:] {
+						args = append(args, e.eval(a))
+					}
+					if fn := vc.P.prog.FuncValue(fo); fn != nil {
+						return e.pureApply(fn, args)
+					}
+					// function of a dependency known only from export data
+					key := p.Name() + "." + x.Name
+					sig := fo.Type().(*types.Signature)
+					if v, ok := f.modelCall(key, sig, args, e.st, true); ok {
+						if sv, ok := v.(Val); ok {
+							return sv
+						}
+					}
+					if vc.P.isPure(key) {
+						return vc.applyUF(key, sig, args, 0)
+					}
+				}
+			}
+			e.fail("unknown package function %s.%s", x.Args[0].Name, x.Name)
+			return Val{"0", SInt, nil}
+		}
+	}
 	recv := e.eval(x.Args[0])
 	if recv.gt == nil {
 		e.fail("method %s on untyped value %s", x.Name, exprSrc(x.Args[0]))
